@@ -4,6 +4,7 @@
    2^32-1 or 2^32-2 - the only values where the 32-bit additions y+1, y+2 inside Rand wrap - by inverting
    the odd multiplier A modulo 2^32 on byte limbs, and emits those that a 24-bit ESI can reach. *)
 EXTENDS Rfc6330, TLC, Json, Integers
+CONSTANTS ScanRows, ScanChunks, ScanChunkSize      \* the tuple-boundary search: rows of Table 2, and X in 0..ScanChunks*ScanChunkSize-1
 VARIABLE v_case
 vars == <<v_case>>
 
@@ -29,7 +30,21 @@ Next == /\ v_case.kind = "root"
                          K == PrevKp(ti) + 1
                      IN v_case' = [kind |-> "wrap", ti |-> ti, kp |-> pr.Kp, k |-> (IF X - (pr.Kp - K) >= K /\ X - (pr.Kp - K) < 16777216 THEN K ELSE pr.Kp),
                                    x |-> X, y |-> yw, t |-> RqTuple(pr, X)]
-Spec == Init /\ [][Next]_vars
+(* (c) spec -> impl, boundary search: internal symbol IDs whose degree draw v = Rand[y, 0, 2^20] lands exactly on a
+   threshold of the degree table (v = f[d] or v = f[d] - 1, incl. v = 0), where "first d with v < f[d]" is decided by
+   a single unit, and IDs whose PI index walk has to skip (b1 >= P).  TLC scans X chunk by chunk. *)
+DegV(pr, X) == Rand(TupleY(pr, X), 0, 1048576)
+Thresholds == {DegF[c] : c \in 1..31} \cup {DegF[c] - 1 : c \in 2..31}
+IsEdge(pr, X) == DegV(pr, X) \in Thresholds
+NextScan ==
+  \/ /\ v_case.kind = "root"
+     /\ \E ti \in ScanRows, c \in 0..(ScanChunks - 1) : v_case' = [kind |-> "chunk", ti |-> ti, c |-> c]
+  \/ /\ v_case.kind = "chunk"
+     /\ LET pr == ParamTab[v_case.ti] IN
+        \E X \in {x \in (v_case.c * ScanChunkSize)..((v_case.c + 1) * ScanChunkSize - 1) : IsEdge(pr, x)} :
+           v_case' = [kind |-> "edge", ti |-> v_case.ti, kp |-> pr.Kp, k |-> pr.Kp, x |-> X, v |-> DegV(pr, X), t |-> RqTuple(pr, X)]
+Spec == Init /\ [][Next \/ NextScan]_vars
+EdgeInRange == v_case.kind = "edge" => TupleInRange(ParamTab[v_case.ti], v_case.t)
 
 ParamsConsistent == v_case.kind = "row" =>
   LET ti == v_case.ti  pr == ParamTab[ti] IN
@@ -51,5 +66,5 @@ TuplesInRange == v_case.kind = "row" =>
 WrapSolved == v_case.kind = "wrap" =>
   /\ TupleY(ParamTab[v_case.ti], v_case.x) = v_case.y
   /\ TupleInRange(ParamTab[v_case.ti], v_case.t)
-Emit == v_case.kind = "wrap" => PrintT(ToJson(v_case))
+Emit == v_case.kind \in {"wrap", "edge"} => PrintT(ToJson(v_case))
 =============================================================================
